@@ -16,7 +16,7 @@ ASSUMPTIONS = wa.ASSUMPTIONS + ["atom names are unique inside a generated residu
                                 "comparing (names, name-labelled edges); virtual-site kinds generated: virtual_sitesn funct 1, "
                                 "virtual_sites2, virtual_sites3 funct 1"]
 REAL_VS_STUB = wa.REAL_VS_STUB
-PROBES = wa.PROBES + ["earlier_call_same_topology_paths", "improper_dihedral", "strained_ring", "skip_filter", "unoptimisable_residue", "optimisation_fall_through", "user_template", "user_volume", "resname_clash", "unsorted_section_lines", "angles_vs_improper_conflict", "proper_after_improper_same_atoms", "volume_for_clashing_name", "local_strain_in_long_residue"]
+PROBES = wa.PROBES + ["earlier_call_same_topology_paths", "improper_dihedral", "strained_ring", "skip_filter", "unoptimisable_residue", "optimisation_fall_through", "user_template", "user_volume", "resname_clash", "unsorted_section_lines", "angles_vs_improper_conflict", "proper_after_improper_same_atoms", "volume_for_clashing_name", "local_strain_in_long_residue", "two_build_files"]
 PROFILE = {"impossible_p": 0.4, "vs_p": 0.4, "improper_p": 0.6, "strained_p": 0.35, "conflict_p": 0.12, "local_strain_p": 0.08,
            "n_restypes": (2, 3), "n_moltypes": (2, 3), "max_atoms": 4, "faults": ["opt", "opt", "step"],
            "max_molecules": 5, "maxres": 5, "box_modes": ["cubic"], "n_entries": (2, 3)}
@@ -36,6 +36,8 @@ def gen_job(verif_seed, tier, index):
         jobgen.add_user_templates(job, g, allow_vs=True)
     if g.random() < 0.15 and not job.get("resname_clash"):
         job["opts"]["skip_filter"] = True
+    if (job.get("bld_templates") or job.get("bld_volumes")) and g.random() < 0.3:
+        job["two_build_files"] = True          # -b sizes.bld opts.bld (templates in the last file)
     if g.random() < 0.5:
         # streaks of failed verdicts: retry loop (<= 11 in a row) and fall-through (>= 12)
         lane = []
@@ -73,6 +75,8 @@ def _tag(job, res):
         p["volume_for_clashing_name"] = 1
     if any(rt.get("local_strain") for rt in job["spec"]["restypes"].values()):
         p["local_strain_in_long_residue"] = 1
+    if job.get("two_build_files"):
+        p["two_build_files"] = 1
     if job["opts"].get("skip_filter"):
         p["skip_filter"] = 1
     if any(rt.get("impossible") for rt in job["spec"]["restypes"].values()):
